@@ -694,6 +694,13 @@ impl<'a> Run<'a> {
                                     // the mixed-up ownership travels with the account
                                     self.tainted_names.insert(new.clone());
                                 }
+                                if self.relaxed_names.contains(&old) {
+                                    // so does the relaxation for a name that is shared with a
+                                    // session which outlived its account (lost acknowledgement):
+                                    // the rename re-owns that session's problems too
+                                    self.relaxed_names.insert(new.clone());
+                                    self.stats.inc("relaxed_name_travels_with_rename");
+                                }
                                 self.windows.push((c, old, new));
                                 self.stats.inc("rename_windows_opened");
                             }
